@@ -924,4 +924,23 @@ def propEvalDoc {α : Type} [Add α] [Mul α] [Zero α] [One α] (ns ms : List N
     (D x : V α) : V α :=
   dftInvDocNd ns ms wms s' (fun f => D f * dftFwdPad ns ms ws s x f)
 
+
+/-! ## `XRayTransform3D.matrices_from_euler_angles`: assembly around the rotation matrix (the rotation itself is scipy's) -/
+
+section Euler
+variable {α : Type} [Add α] [Sub α] [Mul α] [Div α] [Neg α] [Zero α]
+
+/-- `M = diag(1/det_spacing) · R[:2, :] · diag(voxel_spacing)`: entry `(i, j)`, `i < 2`, `j < 3` -/
+def eulerM (R : M α) (vs ds : V α) : M α := fun i j => R i j * vs j / ds i
+
+/-- translation column `t = −M · (input_shape / 2) + output_shape / 2` ("line up the centers") -/
+def eulerT (R : M α) (vs ds : V α) (halfIn halfOut : V α) : V α := fun i =>
+  -(sumTo 3 (fun j => eulerM R vs ds i j * halfIn j)) + halfOut i
+
+/-- detector coordinate `i` of the point `x` (voxel units): `(M x + t)_i` -/
+def eulerProject (R : M α) (vs ds halfIn halfOut x : V α) (i : Nat) : α :=
+  sumTo 3 (fun j => eulerM R vs ds i j * x j) + eulerT R vs ds halfIn halfOut i
+
+end Euler
+
 end Scico.LinOps
